@@ -28,7 +28,7 @@ CHECKS = {
          "Randomised search over regions, items and positions.", "panics are observed with catch_unwind", "DESIGN.md 4/C13"),
  "C16": ("history", "metamorphic PBT: region replaced by from_str(to_string(region)) at arbitrary points, compared with a never-serialised twin and the index/storage models",
          "Randomised history search through serde_json.", "JSON format limits (non-finite floats, Option<()>, huge ZST slices) are excluded and listed", "DESIGN.md 4/C16"),
- "C18": ("history", "stateful PBT with a per-composition storage model: used<=capacity, model lower/upper bounds on the sum of used bytes, monotonicity, clear rule",
+ "C18": ("history", "stateful PBT with a per-composition storage model: used<=capacity, the model's lower bound on the sum of used bytes, monotonicity, clear rule; plus long series (2^12..2^14 pushes into one region, invariants after every push)",
          "Randomised history search against a storage model computed from the reference values.", "trusts the storage model (sizes of index entries and payload)", "DESIGN.md 4/C18"),
  "C20": ("history", "metamorphic PBT: histories mixing all input forms compared with a twin fed the canonical form (indices, used bytes, reads)",
          "Randomised history search; form coverage is measured per impl Push header.", "trusts twin execution", "DESIGN.md 4/C20"),
@@ -44,7 +44,7 @@ CHECKS = {
          "Randomised search over (region contents, item, prior target, destination contents).", "trusts the owned reference values", "DESIGN.md 4/C14"),
  "C15": ("order", "bounded-exhaustive + random triples of small-domain values in different regions/representations; eq/cmp/partial_cmp against the owned values' lexicographic order and the total-order laws",
          "Exhaustive over all triples of vectors of length <= 3 over a 2-symbol alphabet x all representation assignments, plus randomised search with longer vectors.", "trusts std's Vec ordering as the reference", "DESIGN.md 4/C15"),
- "C17": ("alloc", "PBT with a counting global allocator in the harness: pre-size by reserve_items / reserve_regions / merge_regions / merge_capacity, push exactly the announced contents, capacities constant and zero allocator calls; logarithmic call bound for n = 2^6..2^14 (2^16) without pre-sizing",
+ "C17": ("alloc", "PBT with a counting global allocator in the harness: pre-size by reserve_items / reserve_regions / merge_regions / merge_capacity, push exactly the announced contents, capacities constant and zero allocator calls; logarithmic call bound for n = 2^6..2^14 (2^16) without pre-sizing over three value pools and three by-reference input forms",
          "Randomised search over batches and routes; the asymptotic clause is sampled at fixed n against explicit constants.", "trusts the counting allocator (thread-local, enabled only around the measured pushes) and heap_size capacities", "DESIGN.md 4/C17"),
  "C19": ("index", "the C05 enumeration and random op lists with the documented space rule computed independently in u128, plus FlatStack histories over dense-index regions; heap_size used/capacity against the rule",
          "Exhaustive up to the stated length over the stated alphabet plus randomised search.", "trusts the harness's reading of the documented rule; being cheaper than documented is accepted", "DESIGN.md 4/C19"),
